@@ -64,6 +64,8 @@ def build_conn(b, seed, params=None):
                 dta = filler(f"{d}{f['a']}".encode(), nbytes)
                 payload[f["a"]] = dta
                 sid = rng.choice([0, 4, 8]) + (1 if d == "s" and rng.random() < 0.3 else 0) if pk["t"] != "Z" else 0
+                if pk["t"] == "Z" and sum(1 for x in fr if x["ft"] == "stream") == 3 and [x for x in fr if x["ft"] == "stream"].index(f) == 2:
+                    sid = 4         # third STREAM frame of a 0-RTT packet: a second request on its own stream (offset 0 behind a frame with offset > 0)
                 o = soff.get((d, sid), 0)
                 soff[(d, sid)] = o + nbytes
                 last = i == len(fr) - 1 and rng.random() < 0.4
